@@ -14,7 +14,7 @@ Names == << <<>>, <<97, 46, 98>>, <<130, 160>>, <<149, 92, 46, 98>> >>
 Body(i, len) == [j \in 1..len |-> (i * 53 + j * 29) % 256]
 
 LensFor(n) == IF n <= 2 \/ ~Quick THEN {0, 1, 31, 32, 33, 64} ELSE {0, 1, 32, 33}
-NameIdx(n) == IF n <= 2 /\ Quick THEN 1..3 ELSE IF Quick THEN 1..3 ELSE 1..4
+NameIdx(n) == IF n <= 2 THEN 1..4 ELSE 1..3
 
 InjSeqs(S, n) == { s \in [1..n -> S] : \A i, j \in 1..n : s[i] = s[j] => i = j }
 ValuesOfSize(n) ==
